@@ -221,3 +221,170 @@ Proof.
 Qed.
 
 End Payload.
+
+(* ------------------------------------------------------------------------- *)
+(** * The statements, bundled (so that they can be instantiated per format) *)
+
+(** one-NaN layer: plain equalities *)
+Definition ff_laws (prec emax : Z) (Hp : Prec_gt_0 prec) (He : SN.Prec_lt_emax prec emax) : Prop :=
+  let add := ff_add prec emax Hp He in
+  let mul := ff_mul prec emax Hp He in
+  let rmul := ff_real_mul prec emax Hp He in
+  let vmul := ff_vit_mul prec emax Hp He in
+  let vstar := ff_vit_star prec emax in
+  let mx := ff_max prec emax in
+  let leb := ff_leb prec emax in
+  let zero := ff_zero prec emax in
+  let nzero := ff_nzero prec emax in
+  let one := ff_one prec emax Hp He in
+  let ninf := ff_ninf prec emax in
+  let iszero := ff_is_zero prec emax in
+  (* commutativity *)
+  (forall x y, add x y = add y x /\ mul x y = mul y x /\ rmul x y = rmul y x /\ vmul x y = vmul y x) /\
+  (* Real: zero annihilates (0 * inf, 0 * nan included), identities *)
+  (forall x, iszero (rmul zero x) = true /\ iszero (rmul x zero) = true) /\
+  (forall x, SN.Bsign x = false -> rmul zero x = zero /\ rmul x zero = zero) /\
+  (forall x, x <> nzero -> add x zero = x /\ add zero x = x) /\
+  (forall x, mul x one = x /\ mul one x = x) /\
+  (forall x, SN.is_nan x = false -> x <> ninf -> rmul x one = x /\ rmul one x = x) /\
+  (* Real: add and mul are monotone on [0, +inf] *)
+  (forall a b c, leb zero a = true -> leb zero c = true -> leb a b = true ->
+                 leb (add a c) (add b c) = true /\ leb (rmul a c) (rmul b c) = true) /\
+  (* Viterbi: max laws, -inf is the identity of max and annihilates mul (incl. -inf + +inf) *)
+  (forall x y z, mx x x = x /\ mx (mx x y) z = mx x (mx y z) /\
+                 (mx x y = mx y x \/ (iszero x = true /\ iszero y = true))) /\
+  (forall x, mx ninf x = x /\ mx x ninf = x /\ vmul ninf x = ninf /\ vmul x ninf = ninf) /\
+  (forall x, SN.is_nan x = false -> x <> nzero -> vmul x zero = x /\ vmul zero x = x) /\
+  (* Viterbi: mul is monotone and distributes over max exactly; star unfolds *)
+  (forall a b c, leb a b = true -> leb (vmul a c) (vmul b c) = true) /\
+  (forall a b c, SN.is_nan a = false -> SN.is_nan b = false ->
+                 vmul (mx a b) c = mx (vmul a c) (vmul b c) /\ vmul c (mx a b) = mx (vmul c a) (vmul c b)) /\
+  (forall x, vstar x = mx zero (vmul x (vstar x))).
+
+Theorem ff_laws_hold prec emax Hp He : ff_laws prec emax Hp He.
+Proof.
+  unfold ff_laws. repeat match goal with |- _ /\ _ => split end.
+  - intros x y. repeat split; [apply ff_add_comm|apply ff_mul_comm|apply ff_real_mul_comm|apply ff_vit_mul_comm].
+  - apply ff_real_mul_zero_is_zero.
+  - apply ff_real_mul_zero.
+  - apply ff_add_zero.
+  - apply ff_mul_one.
+  - apply ff_real_mul_one.
+  - intros a b c H1 H2 H3. split; [now apply ff_add_mono|now apply ff_real_mul_mono].
+  - intros x y z. repeat split; [apply ff_max_idem|apply ff_max_assoc|apply ff_max_comm].
+  - intros x. destruct (ff_max_ninf prec emax x), (ff_vit_mul_ninf prec emax Hp He x). now repeat split.
+  - apply ff_vit_mul_one.
+  - apply ff_vit_mul_mono.
+  - intros a b c Na Nb. split; [now apply ff_vit_mul_max_distr|now apply ff_vit_mul_max_distr_l].
+  - apply ff_vit_star_unfold.
+Qed.
+
+(** IEEE layer with payloads: for every NaN-choosing function; [fp_same] = equal or both NaN *)
+Definition fp_laws (prec emax : Z) (Hp : Prec_gt_0 prec) (He : SN.Prec_lt_emax prec emax) : Prop :=
+  forall pnan : FB.binary_float prec emax -> FB.binary_float prec emax ->
+                { x : FB.binary_float prec emax | FB.is_nan prec emax x = true },
+  let same := fp_same prec emax in
+  let add := fp_add prec emax Hp He pnan in
+  let mul := fp_mul prec emax Hp He pnan in
+  let rmul := fp_real_mul prec emax Hp He pnan in
+  let vmul := fp_vit_mul prec emax Hp He pnan in
+  let vstar := fp_vit_star prec emax in
+  let mx := fp_max prec emax in
+  let leb := fp_leb prec emax in
+  let zero := fp_zero prec emax in
+  let nzero := FB.B754_zero prec emax true in
+  let one := fp_one prec emax Hp He in
+  let ninf := fp_ninf prec emax in
+  let iszero := fp_is_zero prec emax in
+  let isnan := FB.is_nan prec emax in
+  (forall x y, same x y <-> (x = y \/ (isnan x = true /\ isnan y = true))) /\
+  (forall x y, same (add x y) (add y x) /\ same (mul x y) (mul y x) /\ rmul x y = rmul y x /\ vmul x y = vmul y x) /\
+  (forall x, FB.Bsign prec emax x = false \/ isnan x = true -> rmul zero x = zero /\ rmul x zero = zero) /\
+  (forall x, x <> nzero -> same (add x zero) x /\ same (add zero x) x) /\
+  (forall x, same (mul x one) x /\ same (mul one x) x) /\
+  (forall x, isnan x = false -> x <> ninf -> rmul x one = x /\ rmul one x = x) /\
+  (forall a b c, leb zero a = true -> leb zero c = true -> leb a b = true ->
+                 leb (add a c) (add b c) = true /\ leb (rmul a c) (rmul b c) = true) /\
+  (forall x y z, mx x x = x /\ same (mx (mx x y) z) (mx x (mx y z)) /\
+                 (same (mx x y) (mx y x) \/ (iszero x = true /\ iszero y = true))) /\
+  (forall x, mx ninf x = x /\ mx x ninf = x /\ vmul ninf x = ninf /\ vmul x ninf = ninf) /\
+  (forall a b c, leb a b = true -> leb (vmul a c) (vmul b c) = true) /\
+  (forall a b c, isnan a = false -> isnan b = false -> vmul (mx a b) c = mx (vmul a c) (vmul b c)) /\
+  (forall x, vstar x = mx zero (vmul x (vstar x))).
+
+Theorem fp_laws_hold prec emax Hp He : fp_laws prec emax Hp He.
+Proof.
+  unfold fp_laws. intros pnan. repeat match goal with |- _ /\ _ => split end.
+  - apply fp_same_iff.
+  - intros x y. repeat split; [apply fp_add_comm|apply fp_mul_comm|apply fp_real_mul_comm|apply fp_vit_mul_comm].
+  - apply fp_real_mul_zero.
+  - apply fp_add_zero.
+  - apply fp_mul_one.
+  - apply fp_real_mul_one.
+  - intros a b c H1 H2 H3. split; [now apply fp_add_mono|now apply fp_real_mul_mono].
+  - intros x y z. repeat split; [apply fp_max_idem|apply fp_max_assoc|apply fp_max_comm].
+  - intros x. destruct (fp_max_ninf prec emax x), (fp_vit_mul_ninf prec emax Hp He pnan x). now repeat split.
+  - apply fp_vit_mul_mono.
+  - apply fp_vit_mul_max_distr.
+  - apply fp_vit_star_unfold.
+Qed.
+
+(** ** the two formats of the library, explicitly *)
+Theorem ff_laws_binary32 : ff_laws 24 128 prec32 emax32.
+Proof. apply ff_laws_hold. Qed.
+Theorem ff_laws_binary64 : ff_laws 53 1024 prec64 emax64.
+Proof. apply ff_laws_hold. Qed.
+Theorem fp_laws_binary32 : fp_laws 24 128 prec32 emax32.
+Proof. apply fp_laws_hold. Qed.
+Theorem fp_laws_binary64 : fp_laws 53 1024 prec64 emax64.
+Proof. apply fp_laws_hold. Qed.
+
+(* ------------------------------------------------------------------------- *)
+(** * What rounding destroys: associativity of + and *, distributivity of * over +.
+    These are laws of the EXACT carriers only (Proofs/SemiringLaws.v); on floats they fail already
+    for small positive normal numbers.  Witnesses are given as bit patterns and evaluated by
+    vm_compute on Flocq's operations. *)
+
+Definition b32 (z : Z) : SN.binary_float 24 128 := FB.B2BSN 24 128 (FBits.b32_of_bits z).
+Definition b64 (z : Z) : SN.binary_float 53 1024 := FB.B2BSN 53 1024 (FBits.b64_of_bits z).
+Notation add32 := (ff_add 24 128 prec32 emax32).
+Notation mul32 := (ff_real_mul 24 128 prec32 emax32).
+Notation add64 := (ff_add 53 1024 prec64 emax64).
+Notation mul64 := (ff_real_mul 53 1024 prec64 emax64).
+
+Ltac refute := intros E; apply (f_equal SN.B2SF) in E; vm_compute in E; discriminate E.
+
+(** 0.1f, 0.1f, 0.7f *)
+Theorem ff_add_assoc_refuted_binary32 :
+  exists x y z, add32 (add32 x y) z <> add32 x (add32 y z).
+Proof. exists (b32 0x3dcccccd), (b32 0x3dcccccd), (b32 0x3f333333). refute. Qed.
+(** 0.1f, 0.1f, 10f *)
+Theorem ff_mul_assoc_refuted_binary32 :
+  exists x y z, mul32 (mul32 x y) z <> mul32 x (mul32 y z).
+Proof. exists (b32 0x3dcccccd), (b32 0x3dcccccd), (b32 0x41200000). refute. Qed.
+(** 0.1f * (0.1f + 0.7f) *)
+Theorem ff_real_distr_refuted_binary32 :
+  exists x y z, mul32 x (add32 y z) <> add32 (mul32 x y) (mul32 x z).
+Proof. exists (b32 0x3dcccccd), (b32 0x3dcccccd), (b32 0x3f333333). refute. Qed.
+
+(** 0.1, 0.1, 1.1 *)
+Theorem ff_add_assoc_refuted_binary64 :
+  exists x y z, add64 (add64 x y) z <> add64 x (add64 y z).
+Proof. exists (b64 0x3fb999999999999a), (b64 0x3fb999999999999a), (b64 0x3ff199999999999a). refute. Qed.
+(** 0.1, 0.1, 0.3 *)
+Theorem ff_mul_assoc_refuted_binary64 :
+  exists x y z, mul64 (mul64 x y) z <> mul64 x (mul64 y z).
+Proof. exists (b64 0x3fb999999999999a), (b64 0x3fb999999999999a), (b64 0x3fd3333333333333). refute. Qed.
+Theorem ff_real_distr_refuted_binary64 :
+  exists x y z, mul64 x (add64 y z) <> add64 (mul64 x y) (mul64 x z).
+Proof. exists (b64 0x3fb999999999999a), (b64 0x3fb999999999999a), (b64 0x3fd3333333333333). refute. Qed.
+
+(** the hypotheses of the conditional laws are satisfiable: 1 <= 2, c = 3 in binary32 *)
+Example ff_mono_hyps_ex :
+  ff_nonneg 24 128 (b32 0x3f800000) = true /\ ff_nonneg 24 128 (b32 0x40400000) = true /\
+  ff_leb 24 128 (b32 0x3f800000) (b32 0x40000000) = true /\
+  SN.is_nan (b32 0x3f800000) = false /\ b32 0x3f800000 <> ff_ninf 24 128 /\ b32 0x3f800000 <> ff_nzero 24 128.
+Proof.
+  repeat split; try (vm_compute; reflexivity);
+    intros E; apply (f_equal SN.B2SF) in E; vm_compute in E; discriminate E.
+Qed.
